@@ -150,6 +150,23 @@ def rule_formula(run, F, cfg):
     d = F.fn("resources::PermissionMask::is_default")
     run.ob("C18.1.permission-formula", "is_default", d.expr_local(0) == "(arg:self.0 Eq 0)",
            f"PermissionMask::is_default is `{d.expr_local(0)}` (== 0)", config=cfg)
+    # the other ways a mask value comes into being: from_bits is the identity on the caller's bits, the default grants
+    # nothing, `|` / `|=` are the bitwise OR of the two masks (a constructor that masked bits away or an OR that was an
+    # AND would change what a list is allowed to inject without touching is_injectable_by)
+    PM = "resources::PermissionMask::PermissionMask"
+    ops = {
+        "from_bits": (F.fn("resources::PermissionMask::from_bits").expr_local(0), PM + "{0: arg:bits}"),
+        "default": (F.fn("<resources::PermissionMask as std::default::Default>::default").expr_local(0),
+                    (PM + "{0: <u8 as std::default::Default>::default()}", PM + "{0: 0}")),
+        "bitor": (F.fn("<resources::PermissionMask as std::ops::BitOr>::bitor").expr_local(0),
+                  (PM + "{0: (arg:self.0 BitOr arg:rhs.0)}", PM + "{0: (arg:rhs.0 BitOr arg:self.0)}")),
+    }
+    ba = F.fn("<resources::PermissionMask as std::ops::BitOrAssign>::bitor_assign")
+    w = [ba.expr_rvalue(st["rv"]) for b, i, st in ba.statements() if st["k"] == "assign" and st["pl"]["l"] == 1 and st["pl"]["p"]]
+    ops["bitor_assign"] = (w[0] if len(w) == 1 else str(w), ("(arg:self.0 BitOr arg:rhs.0)", "(arg:rhs.0 BitOr arg:self.0)"))
+    for nme, (got, want) in ops.items():
+        run.ob("C18.1.permission-formula", f"mask-constructors:{nme}", got == want or (isinstance(want, tuple) and got in want),
+               f"PermissionMask::{nme} is `{got}` (expected {want if isinstance(want, str) else want[0]})", config=cfg)
     u8 = [fl["ty"] for fl in F.fields("resources::PermissionMask")]
     run.ob("C18.1.permission-formula", "mask-is-u8", u8 == ["u8"], f"PermissionMask wraps a single u8 ({u8})", config=cfg)
 
